@@ -165,6 +165,7 @@ impl Check for C09 {
         }
         crate::gen::session_variants(&mut r, &mut events, 3, 12, 5);
         crate::gen::nest_variants(&mut r, &mut events);
+        crate::gen::builtin_delete_variants(&mut r, &mut events, &["small_date", "to_duration", "as_duration", "combine_durations"]);
         crate::gen::unwind_variants(&mut r, &mut events);
         crate::gen::decliner_variants(&mut r, &mut events);
         Trace { check: "C09".into(), seed, host_tz: env.host_tz.clone(), salt: r.next(), mode: if move_rate == 0 { "frozen-in-op".into() } else { "moving-in-op".into() }, events }
